@@ -1,2 +1,55 @@
+// Include mode: materialise a directory tree, load the root through mech::read_mech_source_file,
+// return the expanded text or the error, plus the H2 hook events (paths relative to the tree).
+use mech_core::*;
 use serde_json::{json, Value as J};
-pub fn run(_req: &J) -> J { json!({"error":"todo"}) }
+use std::panic::{catch_unwind, AssertUnwindSafe};
+use std::path::PathBuf;
+use std::sync::atomic::{AtomicU64, Ordering};
+
+static COUNTER: AtomicU64 = AtomicU64::new(0);
+
+pub fn run(req: &J) -> J {
+  let base = std::env::var("MECHVERIF_TMP").map(PathBuf::from).unwrap_or_else(|_| std::env::temp_dir());
+  let n = COUNTER.fetch_add(1, Ordering::SeqCst);
+  let dir = base.join(format!("mv-inc-{}-{}", std::process::id(), n));
+  let _ = std::fs::remove_dir_all(&dir);
+  if std::fs::create_dir_all(&dir).is_err() {
+    return json!({"error":"cannot create temp dir"});
+  }
+  let canon = dir.canonicalize().unwrap_or(dir.clone());
+  if let Some(files) = req.get("files").and_then(|f| f.as_object()) {
+    for (rel, content) in files.iter() {
+      let p = dir.join(rel);
+      if let Some(parent) = p.parent() {
+        let _ = std::fs::create_dir_all(parent);
+      }
+      let _ = std::fs::write(&p, content.as_str().unwrap_or(""));
+    }
+  }
+  if let Some(dirs) = req.get("dirs").and_then(|f| f.as_array()) {
+    for d in dirs.iter() {
+      let _ = std::fs::create_dir_all(dir.join(d.as_str().unwrap_or("")));
+    }
+  }
+  let root = dir.join(req.get("root").and_then(|r| r.as_str()).unwrap_or("a.mec"));
+  #[cfg(mech_verif)]
+  {
+    let _ = mech::verif_hooks::take_include_events();
+  }
+  let r = catch_unwind(AssertUnwindSafe(|| mech::read_mech_source_file(&root)));
+  let prefix = format!("{}/", canon.display());
+  let strip = |s: &str| s.replace(&prefix, "");
+  let mut out = match r {
+    Ok(Ok(MechSourceCode::String(s))) => json!({"r":"ok","text":s}),
+    Ok(Ok(_)) => json!({"r":"ok-other"}),
+    Ok(Err(e)) => json!({"r":"err","class":e.kind_name(),"msg":strip(&e.kind_message())}),
+    Err(_) => json!({"r":"panic"}),
+  };
+  #[cfg(mech_verif)]
+  {
+    let ev = mech::verif_hooks::take_include_events();
+    out["events"] = json!(ev.iter().map(|(k, p)| json!([k, strip(p)])).collect::<Vec<_>>());
+  }
+  let _ = std::fs::remove_dir_all(&dir);
+  out
+}
